@@ -2,7 +2,8 @@
    Statements over the model Proto/FragModel.v (as_data_frag_submessage, the writer's fragment
    emission and NACK_FRAG / ACKNACK answers, RtpsWriterProxy push / total_fragments_expected /
    reconstruct_data_from_frag / NACK_FRAG generation, RtpsStatefulReader::on_data_frag_submessage),
-   which follows /repo after the six C05 fix commits.  Byte identity for all payloads, all fragment
+   which follows /repo after the six C05 fix commits and 1f8d93c, 9291c1e, 84c5233 (HEARTBEAT with
+   firstSN <= 0, sequence number i64::MAX, fragments_in_submessage > payload length + 1 are ignored).  Byte identity for all payloads, all fragment
    sizes 1..65535, all arrival orders, duplications, losses and interleavings; and the repair half:
    every NACK_FRAG is fresh and processed, the fragment resent for number n is fragment n, lost
    fragments of a reliable sample are repaired by heartbeat -> NACK_FRAG -> resend rounds. *)
@@ -91,7 +92,7 @@ Proof. exact delivered_identical. Qed.
    duplication, addressed to whichever reader, interleaved with any other genuine traffic — it holds (sn, p) *)
 Theorem C05_complete_set_is_delivered :
   forall f ch sn p r ws,
-    0 < f < 65536 -> history_ok ch -> lookup sn ch = Some p ->
+    0 < f < 65536 -> history_ok ch -> lookup sn ch = Some p -> sn < i64_max ->
     rinv f ch r -> r_rel r = true -> available_changes_max r + 1 = sn ->
     ~ complete f (r_buf r) sn p ->
     Forall (wire_genuine f ch) ws ->
@@ -100,7 +101,10 @@ Theorem C05_complete_set_is_delivered :
 Proof. exact complete_set_is_delivered. Qed.
 
 (* no history panics.  What remains outside: data_max_size_serialized = 0 (the writer divides by it),
-   fragment sizes above 65535 (the u16 wire field), payloads of 4 GiB and more, hand-made fragments *)
+   fragment sizes above 65535 (the u16 wire field), payloads of 4 GiB and more, and hand-made fragments:
+   with those the only panic left in the model is the debug-profile overflow of the u32 sum of
+   fragments_in_submessage in reconstruct_data_from_frag (fragment_size 0 and the `no fragment missing`
+   expect are gone), which needs more than 65537 buffered fragments of one sample *)
 Theorem C05_no_panic :
   forall rel nreaders f ops,
     0 < f < 65536 -> Forall op_ok ops -> exists s obs, run (s_init rel nreaders f) ops = Ok (s, obs).
@@ -169,7 +173,7 @@ Proof. exact nackfrag_resends_fragment_n. Qed.
    missing ones lie within 256 of L, ONE round heartbeat -> ACKNACK/NACK_FRAG -> resend, with the resent
    fragments delivered, completes the sample. *)
 Theorem C05_repair_one_round :
-  forall sn p first last L N c final s,
+  forall sn p first last, 0 < first -> forall L N c final s,
     rep sn p last s -> cinv N s -> N + 3 <= i32_max -> r_hbcount (s_r s) < c ->
     pending sn p first L s -> r_buf (s_r s) <> [] ->
     div_ceil (blen p) (w_f (s_w s)) < L + 256 ->
@@ -180,7 +184,7 @@ Proof. exact repair_one_round. Qed.
    fewer than 2 + 256 k fragments: the first round fetches at least fragment 1 (through the ACKNACK if
    nothing arrived), every further round the next 256 fragment numbers *)
 Theorem C05_repair_k_rounds :
-  forall sn p first last k N c final s,
+  forall sn p first last, 0 < first -> forall k N c final s,
     rep sn p last s -> cinv N s -> N + 3 * (1 + Z.of_nat k) <= i32_max -> r_hbcount (s_r s) < c ->
     pending sn p first 1 s ->
     div_ceil (blen p) (w_f (s_w s)) < 2 + 256 * Z.of_nat k ->
